@@ -47,6 +47,15 @@ CLAIMS = {
     "C10": ("proof", "provenance of Header.hash and of the digest inside chunk::hash (argument order of the SHA-256 updates), accessor-chain return tables, who-may-construct ChangeHash, closure discipline of AutoCommit's history getters",
             "Proves the content-addressing clause: Change::hash() reads Header.hash, every Header gets its hash from chunk::hash over the data whose length it records, chunk::hash feeds SHA-256 with type byte and LEB128 length before the data and returns the digest, no other code fabricates a ChangeHash except the two parsers, and AutoCommit closes the pending transaction before returning history.",
             "Decides the hash clause only; byte-identity of changes rebuilt from the op set and exactness/order of get_changes(have) are runtime-valued and not decided.", "DESIGN.md §3 C10"),
+    "C18": ("proof", "match-table extraction from MIR (enum->tag and tag->enum switch arms, nested patterns) and inverse / sibling-agreement checks over every tag table of the binary formats; wire-checksum provenance on the compressed-change path",
+            "Proves that Action<->u64, ChunkType<->u8, ColumnType<->u8 and ValueType<->type-code tables are mutually inverse with erroring (or total) wildcard arms, that the three ValueMeta encoders and two decoders agree, that the Action<->ObjType codec tables agree, that every enum variant has a code, and that decompression keeps the wire checksum while hashing the inflated data.",
+            "Decides the tag-table clause: a swapped or missing arm breaks the round trip of every change using that tag. Byte-level round-trip of column contents is not decided.", "DESIGN.md §3 C18"),
+    "C19": ("proof", "wire-grammar abstraction of encoder/decoder pairs from MIR (token sequences RAW/LEB/counted-LOOP on non-error paths, helper functions and closures inlined) with inclusion check, plus field identity by provenance",
+            "For six encode/decode pairs (ExId, Cursor, BloomFilter, chunk Header, sync State, sync Message) proves that every token sequence the encoder can emit is consumed by the decoder on a non-error path, and for the multi-integer formats that the k-th integer written comes from the field the k-th integer read is stored into.",
+            "Decides grammar and field agreement, not value-level equality after a round trip nor the text (Display/FromStr) forms; id resolution against differently numbered actors is C30.", "DESIGN.md §3 C19"),
+    "C11": ("proof", "column-specification set agreement and per-spec field identity between writer, validator and reader of the op columns and of the change-graph columns (MIR switch values, named constants with evaluated values, provenance into struct fields)",
+            "Proves that the sets of column specs written by export_column / ChangeGraph::encode, accepted by validate and read by load are equal (16 and 9) and that each spec is saved from and loaded into the same struct field (hence with the same codec).",
+            "Thin: everything value-level in C11 (equal heads, bytes, historical state, idempotent re-save) is not decided.", "DESIGN.md §3 C11"),
 }
 
 NA_PLANNED = "rule designed in DESIGN.md §3 but its checker is not built in this revision, so nothing is claimed yet"
